@@ -743,7 +743,12 @@ class RewriteRuleSet:
                     )
 
                     used_domains: set[str] = {node.domain for node in original_nodes}
-                    parent_opset_imports = graph_or_function.opset_imports
+                    # Subgraphs (If/Loop bodies) carry no opset imports of their own: use the model's.
+                    parent_opset_imports = (
+                        graph_or_function.opset_imports
+                        if isinstance(graph_or_function, ir.Function)
+                        else model.graph.opset_imports
+                    )
                     used_opset_imports = {
                         k: v for k, v in parent_opset_imports.items() if k in used_domains
                     }
